@@ -77,6 +77,11 @@ fn gen_coin_spends(s: &mut Src<'_>) -> (Vec<CoinSpend>, Tree, u32, usize, Vec<St
     cfg.huge = false;
     cfg.careful_rate = 215;
     cfg.mutation_rate = 30;
+    // a quarter of the bundles use puzzles that RUN a program from the solution
+    // (conditions computed at run time, optionally behind an operator probe whose
+    // outcome depends on the operator flags)
+    let eval_mode = s.chance(64);
+    cfg.eval_puzzles = eval_mode;
     let mut b = condgen::gen_bundle(s, &cfg);
     let shared = s.chance(120);
     let mut out = vec![];
@@ -128,13 +133,24 @@ fn gen_coin_spends(s: &mut Src<'_>) -> (Vec<CoinSpend>, Tree, u32, usize, Vec<St
         let op = t.atom(&[1]);
         t.list(&[op, inner, inner])
     };
-    for sp in &b.spends {
-        let sol = if shared && s.bool() {
+    let mut probe_labels: Vec<String> = vec![];
+    for sp in b.spends.clone().iter() {
+        let mut sol = if shared && s.bool() {
             // prepend a REMARK carrying the shared sub-tree to this spend's conditions
             b.tree.pair(shared_node, sp.cond_list)
         } else {
             sp.cond_list
         };
+        if eval_mode {
+            let mut budget = 30usize;
+            let mut prog = proglevel::computed_program(&mut b.tree, sol, s, &mut budget, 0);
+            if s.chance(90) {
+                let (p, name) = proglevel::with_probe(&mut b.tree, prog, s);
+                prog = p;
+                probe_labels.push(name.to_string());
+            }
+            sol = b.tree.list(&[prog]);
+        }
         out.push(proglevel::coin_spend(&b.tree, sp.parent, sp.puzzle_hash, sp.amount, sp.puzzle, sol));
     }
     let amount_classes: std::collections::BTreeSet<usize> = b.spends.iter().map(|sp| vcore::model::int::enc_u64(sp.amount).len()).collect();
@@ -142,6 +158,10 @@ fn gen_coin_spends(s: &mut Src<'_>) -> (Vec<CoinSpend>, Tree, u32, usize, Vec<St
     if shared {
         labels.push("shared-subtrees".into());
     }
+    if eval_mode {
+        labels.push("puzzles:run-program-from-solution".into());
+    }
+    labels.extend(probe_labels);
     let n_conds = b.n_conds;
     (out, b.tree, amount_classes.len() as u32, n_conds, labels)
 }
@@ -154,6 +174,15 @@ pub fn case_paths(bytes: &[u8], ctx: &mut Ctx) -> CaseResult {
         flags |= ConsensusFlags::INTERNED_GENERATOR;
     }
     let (coin_spends, _tree, amount_classes, n_conds, labels) = gen_coin_spends(&mut s);
+    // operator flags (hard-fork activations): every subset, the same for all paths
+    flags |= proglevel::op_flag_subset(s.below(64));
+    // the mempool's own bookkeeping flag (the real mempool runs
+    // MEMPOOL_MODE | COMPUTE_FINGERPRINT)
+    let fingerprint = s.chance(90);
+    if fingerprint {
+        flags |= ConsensusFlags::COMPUTE_FINGERPRINT;
+        ctx.label("flags:compute-fingerprint");
+    }
     ctx.ran_dry(s.ran_dry());
     for l in labels.iter() {
         ctx.label(l.clone());
@@ -228,6 +257,15 @@ pub fn case_paths(bytes: &[u8], ctx: &mut Ctx) -> CaseResult {
             ctx.label("mempool:rejected");
             for (name, r, _) in &paths {
                 if r.is_ok() {
+                    let lenient_fingerprint = fingerprint
+                        && !flags.contains(ConsensusFlags::NO_UNKNOWN_CONDS)
+                        && matches!(e, chia_consensus::validation_error::ValidationErr::Err(chia_consensus::validation_error::ErrorCode::InvalidConditionOpcode));
+                    if lenient_fingerprint {
+                        ctx.known_or_fail("C08:fingerprint-of-lenient-mode-bundle-fails:block-accepts-what-mempool-rejected", || {
+                            format!("with COMPUTE_FINGERPRINT but without mempool strictness, run_spendbundle rejects with {e:?} (the fingerprint cannot be computed) while the {name} is accepted by run_block_generator2 under the same flags")
+                        })?;
+                        continue;
+                    }
                     vfail!(format!("C08:{name}:block-accepts-what-mempool-rejected"), "run_spendbundle rejected with {e:?} but the {name} is accepted by run_block_generator2");
                 }
             }
